@@ -397,6 +397,87 @@ func init() {
 	})
 }
 
+func init() {
+	register(&Rule{
+		ID: "C12-f", Template: "who-may-read (defaulted configuration field)",
+		Doc: "Open transactions stay roots until they expire: a field of conf.Config that has a defaulting getter Get<Field>() (TransactionTTL → 30 days when unset) is read outside pkg/conf only through that getter; `wrgl gc` with the raw field would use a TTL of 0, discard every in-progress transaction and prune its commits.",
+		Min: 1,
+		Run: func(p *Program, r *RuleResult) error {
+			cfg, err := p.NamedType("pkg/conf.Config")
+			if err != nil {
+				return err
+			}
+			st, ok := cfg.Underlying().(*types.Struct)
+			if !ok {
+				return &AnchorError{"conf.Config struct"}
+			}
+			guarded := map[*types.Var]*types.Func{}
+			ms := types.NewMethodSet(types.NewPointer(cfg))
+			for i := 0; i < ms.Len(); i++ {
+				m, ok := ms.At(i).Obj().(*types.Func)
+				if !ok || !strings.HasPrefix(m.Name(), "Get") {
+					continue
+				}
+				for k := 0; k < st.NumFields(); k++ {
+					if st.Field(k).Name() == strings.TrimPrefix(m.Name(), "Get") {
+						guarded[st.Field(k)] = m
+					}
+				}
+			}
+			if len(guarded) == 0 {
+				return &AnchorError{"conf.Config field with a Get<Field> getter"}
+			}
+			fns := p.ProdFuncs()
+			r.Analysed = len(fns)
+			nGetterCalls := 0
+			for _, fn := range fns {
+				inConf := strings.HasPrefix(fnPkgPath(fn), modPath+"/pkg/conf")
+				n := 0
+				for _, b := range fn.Blocks {
+					for _, in := range b.Instrs {
+						if c, ok := in.(ssa.CallInstruction); ok {
+							if f := calleeFunc(c); f != nil {
+								for _, g := range guarded {
+									if g == f {
+										nGetterCalls++
+										r.ok(callKey(fn, c), p.Rel(c.Pos()), "configuration value read through its defaulting getter "+f.Name())
+									}
+								}
+							}
+						}
+						fa, ok := in.(*ssa.FieldAddr)
+						if !ok {
+							continue
+						}
+						fv := structField(fa.X.Type(), fa.Field)
+						g, isGuarded := guarded[fv]
+						if !isGuarded || inConf {
+							continue
+						}
+						// only loads count (stores set the configuration)
+						isLoad := false
+						for _, ref := range *fa.Referrers() {
+							if u, ok := ref.(*ssa.UnOp); ok && u.Op == token.MUL {
+								isLoad = true
+							}
+						}
+						if !isLoad {
+							continue
+						}
+						key := fmt.Sprintf("%s|read conf.Config.%s#%d", funcName(fn), fv.Name(), n)
+						n++
+						r.bad(key, p.Rel(fa.Pos()), "configuration field with a default is read through "+g.Name()+"()", "raw read of Config."+fv.Name()+" bypasses the default applied by "+g.Name()+"()")
+					}
+				}
+			}
+			if nGetterCalls == 0 {
+				r.missing("getter-calls", "no production call of a defaulting conf.Config getter found")
+			}
+			return nil
+		},
+	})
+}
+
 func succIf(trueEdge bool, neg bool) int {
 	if neg {
 		trueEdge = !trueEdge
